@@ -33,6 +33,13 @@ def slack_of(o):
     return SLACK_MS + (600 if o.get("e2e") else 0)
 
 
+def model_slack_of(o):
+    """slack for the comparison with the model's logical duration: the model has no notion of transfer / decoding time,
+    so a 2 MB body gets an allowance, and a busy machine a little more than the property's own bound gets"""
+    huge = sum(1 for v in o["slots"].values() if v.get("body") == "huge_object")
+    return slack_of(o) + 40 + 200 * huge
+
+
 def mismatch(o):
     return (o["scheme"] == "https") != bool(o["server_tls"])
 
@@ -187,7 +194,7 @@ def case_term(o):
     return ("{| c_timeout := %s; c_cancel := %s; c_target := %s; c_script := %s; c_obs := %s; c_dur := %s; "
             "c_slack := %d; c_reqs := %s; c_rec := %s |}") % (
         z(o["timeout"]), "None" if o["cancel"] < 0 else "Some %s" % z(o["cancel"]), target, script, z(o["obs"]),
-        z(int(o["dur_ms"])), slack_of(o), reqs, rec)
+        z(int(o["dur_ms"])), model_slack_of(o), reqs, rec)
 
 
 def case_file(rows):
@@ -271,6 +278,63 @@ def settle(ctx, rows, tag, have_model):
     return rows, bad
 
 
+def overlap_stage(ctx, probes, ms, tag="overlap", goroutines=20):
+    """Overlapping-scans stage: ONE real docker.Scanner and ONE real elastic.Scanner (built like the commands build them),
+    each shared by 20 goroutines as scan.GenericEngine shares a scanner between its workers, against 24 persistent loopback
+    peers per kind: well-behaved APIs each serving its OWN name, 200 + non-JSON, 404 text/plain, and slow variants whose
+    first response is delayed 25-60 ms so that probes of different targets overlap.  Every probe is judged on its own by
+    the property: reported iff ITS peer served JSON info; record host = ITS address; info / version / index list = ITS
+    peer's.  Returns the two rows (docker, elastic)."""
+    ok, _ = ctx.harness_run("c10", ["-out", "%s.jsonl" % tag, "-overlap", probes, "-overlap-ms", ms, "-overlap-g", goroutines,
+                                    "-seed", ctx.seed], timeout=900)
+    if not ok:
+        return None
+    rows = ctx.read_jsonl(os.path.join(ctx.work, "%s.jsonl" % tag))
+    for r in rows:
+        r["bad"] = r.get("bad") or []
+    return rows
+
+
+def judge_overlap(r):
+    if r and r["bad"]:
+        # prefer a misjudged probe whose record names the neighbour whose data it carries: a concrete pair of targets
+        b = next((x for x in r["bad"] if x["data_belongs_to"]), r["bad"][0])
+        return ("with one %s scanner shared by %d goroutines (as the scan engine shares it between its workers) the probe of "
+                "%s (%s peer) is %s%s (%d misjudged probes among %d)" % (
+                    r["kind"], r["goroutines"], b["target"], b["target_behaviour"], b["what"],
+                    "; the record carries the data of %s" % b["data_belongs_to"] if b["data_belongs_to"] else "",
+                    len(r["bad"]), r["judged"]))
+    return None
+
+
+def run_overlap(ctx, probes, ms, tag="overlap"):
+    rows = overlap_stage(ctx, probes, ms, tag)
+    for r in rows or []:
+        ctx.count(r["class"], (r["class"], tag), nontrivial=True,
+                  sample={"class": r["class"], "goroutines": r["goroutines"], "peers": len(r["peers"]), "probes": r["probes"],
+                          "judged": r["judged"], "deadline_errors": r["deadline_errors"], "reported": r["reported"],
+                          "misjudged": len(r["bad"]), "elapsed_ms": r["elapsed_ms"]})
+        ctx.cov["evaluations"] += r["judged"] - 1
+        if r["judged"] < 200 and not r["bad"]:
+            ctx.broken.append(("correspondence: the overlapping-scans stage judged only %d %s probes (%d deadline errors)" % (
+                r["judged"], r["kind"], r["deadline_errors"]), ""))
+        why = judge_overlap(r)
+        key = "overlap:%s:misreport" % r["kind"]
+        if why and not any(f["key"] == key for f in ctx.findings):
+            path = ctx.write_replay("overlap-%s" % r["kind"], {
+                "property": "C10", "what": why, "key": key,
+                "input": {"overlap": True, "kind": r["kind"], "goroutines": r["goroutines"], "timeout_ms": r["timeout_ms"],
+                          "seed": r["seed"], "probes": max(3000, r["probes"]),
+                          "peers": [{"target": ("tcp://%s:%d" if r["kind"] == "docker" else "%s:%d") % (p["ip"], p["port"]),
+                                     "behaviour": p["behaviour"], "slow_first_response_ms": p["slow_ms"], "serves_name": p["tag"]}
+                                    for p in r["peers"]],
+                          "note": "peers listen on fresh ports at every run; the replay rebuilds the same mix"},
+                "observed": {"probes": r["probes"], "judged": r["judged"], "misjudged": r["bad"]},
+                "replay_cmd": "bin/check C10 --replay <this file>"})
+            ctx.findings.append({"key": key, "what": why, "replay": path})
+    return rows
+
+
 def gen_and_build(ctx):
     """Translator + Coq build.  coq/Gen is shared by all checks: a check of another property running at the same time
     against another tree may rewrite Gen/ProbeConsts.v between our translation and our build; detect that (content
@@ -342,6 +406,11 @@ def run(ctx):
         ok, _ = ctx.harness_run("c10", args, timeout=3000)
         if ok:
             rows = corpus_rows(ctx) + ctx.read_jsonl(os.path.join(ctx.work, "cases.jsonl"))
+        # many workers, one scanner, overlapping probes of different targets (always; ~1 s in quick)
+        run_overlap(ctx, 3000 if quick_tier else 60000, 3000 if quick_tier else 40000)
+        if not quick_tier:
+            ctx.harness_race_run("c10", ["-out", "overlap_race.jsonl", "-overlap", 1500, "-overlap-ms", 20000, "-seed", ctx.seed],
+                                 "in docker/elastic Scanner.Scan when one scanner is shared by 20 goroutines")
     if rows:
         rows, bad = settle(ctx, rows, "cases", bool(model_ok))
         if model_ok:
@@ -365,6 +434,8 @@ def run(ctx):
     if getattr(ctx, "suppressed", 0):
         ctx.info.append("%d further failing cases of the same kinds are not listed" % ctx.suppressed)
     # a finding that is a recorded known finding explains the model/proof side only if the model agrees with the code
+    if ctx.broken and not ctx.findings and quick_tier and os.path.exists(os.path.join(verif.HBIN, "c10")):
+        run_overlap(ctx, 60000, 25000, "overlap_search")
     if ctx.broken and not ctx.findings and os.path.exists(os.path.join(verif.HBIN, "c10")):
         ok, _ = ctx.harness_run("c10", ["-out", "search.jsonl", "-seed", ctx.seed + 23, "-n", 600], timeout=1500)
         if ok:
@@ -387,6 +458,21 @@ def replay(ctx, path):
         return 1
     if not ctx.harness_build("c10"):
         return 1
+    if r["input"].get("overlap"):
+        for k in range(2):
+            rows = overlap_stage(ctx, r["input"].get("probes", 3000) * (1 + 4 * k), 6000 * (1 + 2 * k), "overlap_replay%d" % k,
+                                 r["input"].get("goroutines", 20)) or []
+            for row in rows:
+                if row["kind"] != r["input"].get("kind"):
+                    continue
+                why = judge_overlap(row)
+                print("replay overlapping %s scans: %d goroutines, %d probes judged, misjudged: %s -> %s" % (
+                    row["kind"], row["goroutines"], row["judged"],
+                    [(b["target"], b["target_behaviour"], "reported" if b["reported"] else "not reported",
+                      b["data_belongs_to"]) for b in row["bad"][:4]], why or "property holds on this input"))
+                if why:
+                    return 1
+        return 0
     c = dict(r["input"])
     c.update({"port": 0, "obs": 0, "err": "", "dur_ms": 0, "reqs": None, "rec": None, "tries": 0})
     c["e2e"] = (build_sx(ctx) or "") if c.get("e2e") else ""
